@@ -187,6 +187,7 @@ type executor struct {
 	pkg *types.Package
 	assumeNotes map[string]bool
 	recursionMeasure *T
+	curState *state
 }
 
 func newExecutor(prog *program, specs *specDB) *executor {
@@ -446,7 +447,12 @@ func (x *executor) verify(key string) (err error) {
 			continue
 		}
 		ev.where = ax.cl.line
-		t := ev.evalBool(ax.cl.e)
+		var t *T
+		if len(ax.reads) > 0 {
+			t = ev.genericAxiom(ax)
+		} else {
+			t = ev.evalBool(ax.cl.e)
+		}
 		st.assume(t)
 		x.axiomsUsed[ax.name] = true
 	}
@@ -559,6 +565,7 @@ func (x *executor) runMachine(m *machine) {
 		}
 		in := fr.block.Instrs[fr.idx]
 		fr.idx++
+		x.curState = m.st
 		x.step(m, fr, in)
 	}
 }
